@@ -191,10 +191,11 @@ def run(ctx):
             if t in seen:
                 continue
             seen.add(t)
-            si = owner[line - 1]
+            si = max(0, owner[line - 1])
+            st0 = starts.get(si, 0)
             rp = vlib.save_replay(ctx, t.replace(":", "_"), dict(family="throttle", property=prop, clause=t,
-                                  script=scripts[si], event=line - 1 - starts[si], observed=events[line - 1]))
-            violations.append(dict(key=t, replay=rp, what="script %d (%s) event %d" % (si, scripts[si]["origin"], line - 1 - starts[si])))
+                                  script=scripts[si], event=line - 1 - st0, observed=events[line - 1]))
+            violations.append(dict(key=t, replay=rp, what="script %d (%s) event %d" % (si, scripts[si]["origin"], line - 1 - st0)))
     # ---- wiring in cmd/thermal-recorder/main.go with the real clock (one-sided, generous margins)
     import fam_e2e
     binp = ctx.go_test_build("./cmd/thermal-recorder", "tr.test")
@@ -209,7 +210,11 @@ def run(ctx):
             seen.add(bad)
             rp = vlib.save_replay(ctx, bad.replace(":", "_"), dict(family="throttle", property=prop, clause=bad, run=wr))
             violations.append(dict(key=bad, replay=rp, what=json.dumps({k: wr[k] for k in ("fps", "bucket_frames", "frames_stored", "throttle_events")})))
-    rej, acc = conform(ctx, trace)
+    try:
+        rej, acc = conform(ctx, trace)
+    except vlib.Infra as e:
+        rej, acc = 1, 0
+        ctx.notes.append("conformance run failed: %s" % str(e)[:200])
     conf = dict(events_accepted=acc, rejected_at=None)
     if rej is not None:
         conf["rejected_at"] = dict(line=rej, script=owner[rej - 1] if rej - 1 < len(owner) else None)
